@@ -299,9 +299,20 @@ class ExprMixin:
         """Abstract value of a counter.  The counters of a collection passed in
         as an argument (tree 'P:<param>') are 0 at a public entry point: that
         collection is not inside one of its own operations."""
-        if key not in self.counts and isinstance(key, tuple) and key and str(key[0]).startswith("P:") and key[1] == "_suspend_sync":
-            self.counts[key] = 0
+        if key not in self.counts:
+            d = self.param_tree_default(key)
+            if d is not None:
+                self.counts[key] = d
         return self.counts.get(key)
+
+    def param_tree_default(self, key):
+        if isinstance(key, tuple) and len(key) == 2 and str(key[0]).startswith("P:"):
+            if key[1] == "_suspend_sync":
+                return 0
+            if key[1] == "buffered":
+                # the other operand is taken to be in the same buffering state as the receiver
+                return 1 if self.ctx.mu == "obj" else 0
+        return None
 
     # ---------------------------------------------------------- attributes
     def inst_tree_root(self, inst):
